@@ -127,6 +127,7 @@ type kcfg struct {
 	TaskEnqueueDelay    int64    `json:"taskEnqueueDelay"` // ms
 	SignalTimeout       int64    `json:"signalTimeout"`    // ms
 	ApiSize             int      `json:"apiSize"`
+	ExtraSource         bool     `json:"extraSource"` // the router has a configured source besides the built-in one
 	Background          []string `json:"background"`
 }
 
@@ -168,7 +169,12 @@ func (w *world) boot() error {
 	w.open = map[string]bool{}
 
 	var err error
-	if w.router, err = router.New(w.aio, mt, &router.Config{Size: 100, Workers: 1}); err != nil {
+	rcfg := &router.Config{Size: 100, Workers: 1}
+	if w.cfg.ExtraSource {
+		// a configured source under another name than "default": the built-in routing tag keeps working beside it
+		rcfg.Sources = []router.SourceConfig{{Name: "extra", Type: "tag", Data: json.RawMessage(`{"key":"verif:route"}`)}}
+	}
+	if w.router, err = router.New(w.aio, mt, rcfg); err != nil {
 		return err
 	}
 	scfg := &sender.Config{Size: 100}
